@@ -445,7 +445,28 @@ impl<'data> MergedStringsSection<'data> {
 
         // Check if we got any errors. We only look at the first error.
         if let Some(error) = resources.errors.pop() {
+            #[cfg(wild_verif)]
+            crate::verif::flush_events("merge-strings-error");
             return Err(error);
+        }
+
+        #[cfg(wild_verif)]
+        {
+            // Quiescence: all buckets finished having consumed every input group; pool is full.
+            if resources.finished_buckets.len() != MERGE_STRING_BUCKETS {
+                crate::verif::invariant_failed(&format!(
+                    "string-merge: {} of {MERGE_STRING_BUCKETS} buckets finished",
+                    resources.finished_buckets.len()
+                ));
+            }
+            if !resources.unprocessed.is_empty() {
+                crate::verif::invariant_failed(&format!(
+                    "string-merge: {} input groups never processed",
+                    resources.unprocessed.len()
+                ));
+            }
+            crate::verif::event("merge-quiescent", resources.num_input_groups as u64, 0);
+            crate::verif::flush_events("merge-strings");
         }
 
         {
@@ -554,6 +575,19 @@ impl<'scope, 'data: 'scope, 'offsets> SplitResources<'data, 'offsets, 'scope> {
         let mut lock = self.strings_by_bucket_and_group[string_bucket_offset(input, bucket)]
             .lock()
             .unwrap();
+        #[cfg(wild_verif)]
+        {
+            let code = |s: &StringsSlot| match s {
+                StringsSlot::Empty => 0u64,
+                StringsSlot::WaitingForStrings(_) => 1,
+                StringsSlot::Strings(_) => 2,
+            };
+            crate::verif::event(
+                "slot-put",
+                string_bucket_offset(input, bucket) as u64,
+                code(&lock) | (code(&slot) << 4),
+            );
+        }
         replace(&mut lock, slot)
     }
 }
@@ -569,6 +603,8 @@ fn try_spawn_input_processing<'scope>(
         };
 
         scope.spawn(|scope| {
+            #[cfg(wild_verif)]
+            crate::verif::sched_point(20);
             if let Some(input_section) = resources.unprocessed.pop()
                 && let Err(error) =
                     process_input_section_group(resources, input_section, scope, &mut reservation)
@@ -753,6 +789,8 @@ impl ReusePool {
         let r = self.string_vecs.push(reuse_vec(strings_to_merge));
         assert!(r.is_ok());
 
+        #[cfg(wild_verif)]
+        crate::verif::event("return-vec", 0, 0);
         self.available.fetch_add(1, Ordering::Relaxed);
     }
 
@@ -761,8 +799,13 @@ impl ReusePool {
     fn try_reserve(&self, num_vecs: usize) -> Result<PoolReservation, ()> {
         let available = self.available.load(Ordering::Relaxed);
         if available < num_vecs {
+            #[cfg(wild_verif)]
+            crate::verif::event("reserve-fail", available as u64, 0);
             return Err(());
         }
+
+        #[cfg(wild_verif)]
+        crate::verif::sched_point(21);
 
         if self
             .available
@@ -774,8 +817,13 @@ impl ReusePool {
             )
             .is_err()
         {
+            #[cfg(wild_verif)]
+            crate::verif::event("reserve-fail", available as u64, 1);
             return Err(());
         }
+
+        #[cfg(wild_verif)]
+        crate::verif::event("reserve-ok", available as u64, num_vecs as u64);
 
         Ok(PoolReservation {
             remaining: num_vecs,
@@ -784,6 +832,8 @@ impl ReusePool {
 
     #[allow(clippy::needless_pass_by_value)]
     fn unreserve(&self, reservation: PoolReservation) {
+        #[cfg(wild_verif)]
+        crate::verif::event("unreserve", reservation.remaining as u64, 0);
         if reservation.remaining == 0 {
             return;
         }
@@ -817,6 +867,9 @@ fn process_input_section_group<'data, 'offsets, 'scope>(
 ) -> Result {
     verbose_timing_phase!("Split and hash");
 
+    #[cfg(wild_verif)]
+    crate::verif::event("input-start", group_in.index as u64, 0);
+
     let mut buckets: [Vec<StringToMerge<'data, 'offsets>>; MERGE_STRING_BUCKETS] = [();
         MERGE_STRING_BUCKETS]
         .map(|()| resources.reuse_pool.take_string_merge_vec(reservation));
@@ -834,6 +887,8 @@ fn process_input_section_group<'data, 'offsets, 'scope>(
     resources.finished_shards[group_in.index].store(Some(group_in.offsets_shard));
 
     for (i, bucket_out) in buckets.iter_mut().enumerate() {
+        #[cfg(wild_verif)]
+        crate::verif::sched_point(22);
         let prev_slot =
             resources.swap_strings_slot(group_in.index, i, StringsSlot::Strings(take(bucket_out)));
         if let StringsSlot::WaitingForStrings(bucket) = prev_slot {
@@ -859,6 +914,8 @@ fn work_with_bucket<'data, 'scope>(
     let mut overflowed_offsets = resources.overflowed_offsets.get_or_default().borrow_mut();
 
     while bucket.next_input_group_index < resources.num_input_groups {
+        #[cfg(wild_verif)]
+        crate::verif::sched_point(23);
         let mut strings_to_merge = {
             let group_index = bucket.next_input_group_index;
 
@@ -869,9 +926,21 @@ fn work_with_bucket<'data, 'scope>(
 
             let slot = replace(&mut *lock, StringsSlot::Empty);
             let StringsSlot::Strings(strings) = slot else {
+                #[cfg(wild_verif)]
+                crate::verif::event(
+                    "bucket-wait",
+                    bucket.index as u64,
+                    bucket.next_input_group_index as u64,
+                );
                 *lock = StringsSlot::WaitingForStrings(bucket);
                 return Ok(());
             };
+            #[cfg(wild_verif)]
+            crate::verif::event(
+                "bucket-take",
+                bucket.index as u64,
+                bucket.next_input_group_index as u64,
+            );
 
             strings
         };
@@ -887,6 +956,13 @@ fn work_with_bucket<'data, 'scope>(
         // Advance to the next input for this bucket.
         bucket.next_input_group_index += 1;
     }
+
+    #[cfg(wild_verif)]
+    crate::verif::event(
+        "bucket-finished",
+        bucket.index as u64,
+        bucket.next_input_group_index as u64,
+    );
 
     // This bucket has now processed all input sections, so it's done.
     let _ = resources.finished_buckets.push(bucket);
